@@ -1413,6 +1413,25 @@ class Server:
         connection.response(code, info)
         return True
 
+    @staticmethod
+    async def _start_server_cancel_safe(on_cancel, *args, **kwargs):
+        # If the session ends while its listener is being opened the wait
+        # is cancelled: let `start_server` finish anyway, then close what it
+        # has opened and give the port back via `on_cancel`.
+        task = asyncio.create_task(asyncio.start_server(*args, **kwargs))
+        try:
+            return await asyncio.shield(task)
+        except asyncio.CancelledError:
+
+            def cleanup(task):
+                if not task.cancelled() and task.exception() is None:
+                    task.result().close()
+                if on_cancel is not None:
+                    on_cancel()
+
+            task.add_done_callback(cleanup)
+            raise
+
     async def _start_passive_server(self, connection, handler_callback):
         if self.available_data_ports is not None:
             viewed_ports = set()
@@ -1422,7 +1441,11 @@ class Server:
                     if port in viewed_ports:
                         raise errors.NoAvailablePort
                     viewed_ports.add(port)
-                    passive_server = await asyncio.start_server(
+                    passive_server = await self._start_server_cancel_safe(
+                        functools.partial(
+                            self.available_data_ports.put_nowait,
+                            (priority, port),
+                        ),
                         handler_callback,
                         connection.server_host,
                         port,
@@ -1438,7 +1461,8 @@ class Server:
                     if err.errno != errno.EADDRINUSE:
                         raise
         else:
-            passive_server = await asyncio.start_server(
+            passive_server = await self._start_server_cancel_safe(
+                None,
                 handler_callback,
                 connection.server_host,
                 connection.passive_server_port,
